@@ -2,6 +2,7 @@ package props
 
 import (
 	"fmt"
+	"go/token"
 	"go/types"
 	"sort"
 	"strings"
@@ -718,19 +719,33 @@ func ruleBareObject(c *chk.Ctx) {
 			n++
 			var kinds []string
 			for _, cd := range ir.CondsAt(r.Block()) {
-				if bo, ok := cd.V.(*ssa.BinOp); ok {
-					if _, isLen := ir.LenOf(bo.X); isLen {
-						k, _ := ir.ConstInt(bo.Y)
-						kinds = append(kinds, fmt.Sprintf("len%s%d:%v", bo.Op, k, cd.Truth))
+				if x, y, op, ok := ir.Rel(cd); ok {
+					_, isLen := ir.LenOf(x)
+					k, isC := ir.ConstInt(y)
+					if !isLen {
+						if _, l2 := ir.LenOf(y); l2 {
+							k, isC = ir.ConstInt(x)
+							isLen = isC
+							flip := map[token.Token]token.Token{token.LSS: token.GTR, token.GTR: token.LSS, token.LEQ: token.GEQ, token.GEQ: token.LEQ, token.EQL: token.EQL, token.NEQ: token.NEQ}
+							op = flip[op]
+						}
+					}
+					if isLen && isC {
+						kinds = append(kinds, fmt.Sprintf("len%s%d:true", op, k))
 						continue
 					}
 				}
-				if chk.LoadsField(cd.V, c.M.JBatch) {
-					kinds = append(kinds, fmt.Sprintf("batch:%v", cd.Truth))
+				v, t := cd.V, cd.Truth
+				if u, isNot := v.(*ssa.UnOp); isNot && u.Op == token.NOT {
+					v, t = u.X, !t
+				}
+				if chk.LoadsField(v, c.M.JBatch) {
+					kinds = append(kinds, fmt.Sprintf("batch:%v", t))
 					continue
 				}
 				kinds = append(kinds, "other")
 			}
+			kinds = dedupStrings(kinds)
 			want := map[string]bool{"len==1:true": true, "batch:false": true}
 			ok2 := len(kinds) == 2 && want[kinds[0]] && want[kinds[1]] && kinds[0] != kinds[1]
 			c.Check(ok2, "TABLE.bare", f, "bare object iff single non-batch", r.Pos(), "the single-object form is returned exactly under len == 1 ∧ ¬batch", "the single-object form is returned under ["+strings.Join(kinds, " ∧ ")+"], not exactly len == 1 ∧ ¬batch: an array request could be answered with a bare object or vice versa")
@@ -740,7 +755,6 @@ func ruleBareObject(c *chk.Ctx) {
 		}
 	}
 }
-
 
 // readerOf resolves the owner's reader: its single Recv site (found by the
 // provenance of the channel value, not by where the call sits) and the reader
